@@ -15,6 +15,8 @@ import (
 	"verifsim/wirex"
 )
 
+var opUnm = "generated Unmarshal"
+
 type res struct {
 	err   error
 	pan   any
@@ -147,8 +149,10 @@ func runC06(t *rapid.T, w *rep.Worker) {
 	via := rapid.IntRange(0, 1).Draw(t, "via")
 	fresh := typ.New()
 	before := corpus.Digest(dirty)
+	w.WatchBegin(&opUnm)
 	rd := unmarshal(dirty, b, via)
 	rf := unmarshal(fresh, b, via)
+	w.WatchEnd()
 	w.Step("Unmarshal(%d bytes %x) via %s into the dirty destination: err=%v; into a fresh one: err=%v", len(b), clip(b), []string{"generated method", "csproto.Unmarshal"}[via], rd.err, rf.err)
 	switch {
 	case rd.pan != nil && rf.pan != nil:
